@@ -36,6 +36,9 @@ const (
 	// fCtxCall: the context the consumer passes to Next is already over from its P-th Next call on
 	// (reducers: the context of the reducer call itself); Stage == 0 cancelled, 1 deadline in the past.
 	fCtxCall
+	// fTransient (direct Peekable API group only): the source's P-th Next call (counted over its
+	// life) fails with vkit.ErrTransient without consuming anything; later calls succeed.
+	fTransient
 )
 
 var deadCancelled, deadExpired = func() (context.Context, context.Context) {
@@ -84,6 +87,8 @@ func (f fault) String() string {
 		return fmt.Sprintf("callback-error@item%d(stage%d)", f.P, f.Stage)
 	case fBlock:
 		return "sources-block-at-end"
+	case fTransient:
+		return fmt.Sprintf("transient-source-error@call%d", f.P)
 	case fCtxCtor:
 		return "construction-ctx-already-" + ctxWord(f.P)
 	case fCtxCall:
@@ -108,6 +113,8 @@ func (f fault) class(n int) string {
 		return "callback"
 	case fBlock:
 		return "block-at-end"
+	case fTransient:
+		return "transient"
 	case fCtxCtor:
 		return "ctx-at-construction"
 	case fCtxCall:
